@@ -30,7 +30,7 @@ CHECKS = {
          "Exploration by generated-input search: buffers 0..=70000 on first and continuation calls, extension chains, hand-made contexts. Evidence is 'N cases, M distinct non-trivial, these classes, no counter-example'; absence is not proven.",
          'DESIGN.md §5 C06',
          T),
- 'C07': ('exhaustive enumeration of all order-preserving merges of small train sets with one stray at every position + proptest random interleavings; reference slot-ownership model; exhaustive sweep of every ordered pair of fragment ids in memories of 128, 5 and 256 slots',
+ 'C07': ('exhaustive enumeration of all order-preserving merges of small train sets with one stray at every position + proptest random interleavings; reference slot-ownership model; exhaustive sweep of every ordered pair of fragment ids in memories of 128, 5 and 256 slots; closed starved-pool histories (every storage held by an open PDU, a further first fragment must be refused and harm nobody)',
          "Exploration by generated-input search: the enumerated family (2 PDUs x 2..4 fragments, 3 PDUs x 2..3 fragments, 12..16 stray kinds, every position; 2 / 2,3,4 slots) is complete; larger configurations are sampled. Evidence is 'N cases, M distinct non-trivial, these classes, no counter-example'; absence is not proven.",
          'DESIGN.md §5 C07',
          T),
@@ -70,7 +70,7 @@ CHECKS = {
          "Exploration by generated-input search: probes must be delivered byte-exact after any generated prefix. Evidence is 'N cases, M distinct non-trivial, these classes, no counter-example'; absence is not proven.",
          'DESIGN.md §5 C16',
          T),
- 'C17': ('exhaustive enumeration of all operation sequences to depth 5 (quick) / 6-7 (thorough) over a 16-operation alphabet with aliasing ids + proptest long sequences; reference model (bag + slots) compared after every operation + final drain',
+ 'C17': ('exhaustive enumeration of all operation sequences to depth 5 (quick) / 6-7 (thorough) over a 16-operation alphabet with aliasing ids and undersized caller-owned buffers + proptest long sequences; reference model (bag + slots) compared after every operation + final drain',
          "Exploration by generated-input search: bounded-depth sequences are complete for memories of 1..4 slots. Evidence is 'N cases, M distinct non-trivial, these classes, no counter-example'; absence is not proven.",
          'DESIGN.md §5 C17, §7.6',
          T),
